@@ -896,6 +896,12 @@ func (t *tree) parseExpr(prec int) ast.Node {
 		if !isBinaryOp(tok.typ) || q < prec {
 			break
 		}
+		if tok.typ == itemElvis {
+			// ?: shares the lowest level with the ternary and associates to the
+			// right: $a ?: $b ? 1 : 2 is $a ?: ($b ? 1 : 2).
+			n = newBinaryOpNode(tok, n, t.parseExpr(0))
+			continue
+		}
 		q++
 		n = newBinaryOpNode(tok, n, t.parseExpr(q))
 	}
